@@ -275,3 +275,54 @@ Fixpoint wrun_ok (w : world) (ops : list wop) : Prop :=
   | [] => True
   | o :: t => wop_ok w o /\ wrun_ok (fst (wstep w o)) t
   end.
+
+(* ======================= round 5: READ ROUTES — every way a caller reads a sub-field =======================
+   "reads back the assigned values" is judged through every route of SubFieldView / ArrayView.  In the code as it
+   is, each route is a function of the unpacked values (bytes & mask) >> lsb, never of the packed bytes:
+     np.array(view), view.copy(), view[slice]             the values                                 (RArray)
+     view.max() / view.min(), np.max / np.min             ArrayView.max: np.array(self).max()        (RMax, RMin)
+     np.sum, np.count_nonzero, np.unique                  __array_function__ converts the view first (RSum, RCount, RUnique)
+     np.asarray(view, dtype=bool)                         SubFieldView.__array__ ignores the dtype it is handed: numpy
+     np.asarray(view, dtype=int8..uint64)                 converts the UNPACKED values                (RBool, RInt)
+     view[i]                                              SubFieldView(array[i]).masked_array()      (RItem)
+     view == c, != c, < c, <= c, >= c, > c                np.array(self) == c; fast path of Model/SubField.v sf_cmp_fast (RCmp)
+   A route that reduced / converted / compared the PACKED bytes first would follow the sibling bits. *)
+Definition list_max (vs : list Z) : option Z := match vs with [] => None | v :: t => Some (fold_left Z.max t v) end.
+Definition list_min (vs : list Z) : option Z := match vs with [] => None | v :: t => Some (fold_left Z.min t v) end.
+Definition list_sum (vs : list Z) : Z := fold_left Z.add vs 0.
+Definition as_bool (v : Z) : Z := if v =? 0 then 0 else 1.
+(* numpy's conversion of an integer to an integer type of `bits` bits (two's complement when signed) *)
+Definition wrap_int (bits : Z) (signed : bool) (v : Z) : Z :=
+  let r := v mod 2 ^ bits in if signed && (2 ^ (bits - 1) <=? r) then r - 2 ^ bits else r.
+Definition b2z (b : bool) : Z := if b then 1 else 0.
+(* op: 0 <, 1 <=, 2 >=, 3 > (cmp_op of Model/SubField.v), 4 ==, 5 != *)
+Definition cmp6 (op x y : Z) : bool := if op =? 4 then x =? y else if op =? 5 then negb (x =? y) else cmp_op op x y.
+
+Inductive route :=
+| RArray | RMax | RMin | RSum | RCount | RUnique | RBool
+| RInt (bits : Z) (signed : bool)
+| RItem (i : nat)
+| RCmp (op c : Z).
+
+Definition route_vals (ro : route) (vs : list Z) : option (list Z) :=
+  match ro with
+  | RArray => Some vs
+  | RMax => option_map (fun x => [x]) (list_max vs)              (* numpy refuses the reduction of an empty array *)
+  | RMin => option_map (fun x => [x]) (list_min vs)
+  | RSum => Some [list_sum vs]
+  | RCount => Some [list_sum (map as_bool vs)]
+  | RUnique => Some (filter (fun x => existsb (Z.eqb x) vs) (map Z.of_nat (seq 0 256)))
+  | RBool => Some (map as_bool vs)
+  | RInt bits s => Some (map (wrap_int bits s) vs)
+  | RItem i => if Nat.ltb i (length vs) then Some [nth i vs 0] else None
+  | RCmp op c => Some (map (fun v => b2z (cmp6 op v c)) vs)
+  end.
+
+(* a route on the packed bytes of one sub-field / on a sub-field of a record *)
+Definition sf_route (m : Z) (bs : list Z) (ro : route) : option (list Z) := route_vals ro (map (sf_get m) bs).
+Definition rec_route (fmt : Z) (r : prec) (name : string) (ro : route) : option (list Z) :=
+  match rec_read fmt r name with Some vs => route_vals ro vs | None => None end.
+
+(* the value the field has at point j after the (position, value) pairs of an index expression, applied in order *)
+Definition last_val (sel : list (nat * Z)) (j : nat) (d : Z) : Z :=
+  fold_left (fun acc p => if Nat.eqb (fst p) j then snd p else acc) sel d.
